@@ -141,7 +141,7 @@ class Tracer:
         i = self.tid()
         if i is None:
             return
-        if label[0] in "wrc" and self.holder != i:
+        if label in ("w", "r", "c") and self.holder != i:
             self.misuse.append((len(self.sched), i, label, self.holder))
         self.sched.append(f"r:{i}:{label}")
 
